@@ -12,7 +12,7 @@ from ..spy import BatchRecorder
 from .c10 import bias_batch, unique_data
 
 QUICK_SCALE = 4  # quick budgets below are multiplied by this (kept at about half a minute on 8 processes)
-THOROUGH_SCALE = 10  # thorough budgets below are multiplied by this (about ten minutes on 16 processes)
+THOROUGH_SCALE = 6  # thorough budgets below are multiplied by this (about ten minutes on 16 processes)
 
 RULE = ("(a) pair sets over non-contiguous, unordered index universes with chains, cycles, duplicates and occasional "
         "self pairs, given as lists or arrays; acceptance must coincide with the union-find reference; malformed inputs "
